@@ -1,5 +1,4 @@
 import Ruint.Base
-import Ruint.Gen.RecipTable
 /-!
 # Word-level division kernels of `src/algorithms/div/{small,reciprocal}.rs` and the limb chains they use
 
@@ -71,44 +70,6 @@ def div3x2 (W u21 u0 d v : Nat) : Nat × Nat :=
   let p := if r / W ≥ ql then ((q1 + W - 1) % W, (r + d) % (W * W)) else (q1, r)
   if p.2 ≥ d then ((p.1 + 1) % W, p.2 - d) else p
 
-/-! ## `reciprocal_mg10` (64-bit only: the constants of MG10 Alg. 3 are width specific) -/
-namespace Recip
-
-/-- the table, extracted from `src/algorithms/div/reciprocal.rs` (regenerated on every run) -/
-def TABLE : Array Nat := Ruint.Gen.recipTable
-
-def M : Nat := 2 ^ 64
-def wsub (a b : Nat) : Nat := (a + M - b % M) % M
-def wmul (a b : Nat) : Nat := (a * b) % M
-def wadd (a b : Nat) : Nat := (a + b) % M
-
-/-- `reciprocal_mg10` exactly as the Rust code computes it (`Wrapping<u64>` arithmetic). -/
-def recipModel (d : Nat) : Nat :=
-  let d0 := d % 2
-  let d9 := d / 2 ^ 55
-  let d40 := wadd 1 (d / 2 ^ 24)
-  let d63 := (wadd d 1) / 2
-  let v0 := TABLE[d9 - 256]!
-  let v1 := wsub (wsub (wmul v0 (2 ^ 11)) ((wmul (wmul v0 v0) d40) / 2 ^ 40)) 1
-  let v2 := wadd (wmul v1 (2 ^ 13)) ((wmul v1 (wsub (2 ^ 60) (wmul v1 d40))) / 2 ^ 47)
-  let e := wsub (if d0 = 1 then v2 / 2 else 0) (wmul v2 d63)
-  let v3 := wadd ((v2 * e / M) / 2) (wmul v2 (2 ^ 31))
-  wsub (wsub v3 ((v3 * d + d) / M)) d
-
-def recipSpec (d : Nat) : Nat := (M * M - 1) / d - M
-
-/-! per-row quantities of the error analysis (`table_facts` in `Ruint/Gen/RecipTableFacts.lean`) -/
-def rowLo (i : Nat) : Nat := (256 + i) * 2 ^ 31 + 1
-def rowHi (i : Nat) : Nat := (257 + i) * 2 ^ 31
-/-- ceil of the scaled endpoint requirement (scale 256) -/
-def need (v0 T : Nat) : Nat :=
-  let num : Int := 256 * (v0 * v0 : Int) * T * T + 256 * 2 ^ 100 - 256 * (2 ^ 11 * (v0 : Int) - 1) * T * 2 ^ 40
-  let den : Int := (T : Int) * 2 ^ 40
-  (Int.toNat (-((-num) / den)))
-def aRow (i : Nat) : Nat := max (need (TABLE[i]!) (rowLo i)) (need (TABLE[i]!) (rowHi i))
-
-end Recip
-
 /-! ## `reciprocal_2_mg10` (MG10 Alg. 6), generic base -/
 namespace R2
 
@@ -142,12 +103,5 @@ def recip2 (W d : Nat) : Nat :=
 
 end R2
 
-namespace KFull
-/-- `reciprocal_2(d)` as the code computes it: Alg. 6 blocks on top of the table-based one-word `reciprocal`. -/
-def recip2Code (d : Nat) : Nat :=
-  let W := 2 ^ 64
-  let s := R2.blk1 W (d / W) (d % W) (Recip.recipModel (d / W))
-  R2.blk2 W d (d % W) s.1 s.2
-end KFull
 
 end Ruint.Div
